@@ -4,6 +4,7 @@ package json
 
 import (
 	"reflect"
+	"unsafe"
 
 	"github.com/goccy/go-json/internal/decoder"
 	"github.com/goccy/go-json/internal/encoder"
@@ -51,4 +52,19 @@ func VerifBuildPath(text string) (res string) {
 		return "err"
 	}
 	return "ok " + decoder.VerifPathNodes(p.path)
+}
+
+// VerifDumpPrograms lists the slot layout of the encoder programs of t (see encoder.VerifDumpPrograms).
+func VerifDumpPrograms(t reflect.Type) ([]string, error) {
+	header := (*emptyInterface)(unsafe.Pointer(&t))
+	return encoder.VerifDumpPrograms((*runtime.Type)(header.ptr))
+}
+
+// VerifSlotsReset switches the slot-access assertions on or off and clears their state.
+func VerifSlotsReset(on bool) { encoder.VerifSlotsReset(on) }
+
+// VerifSlotsReport returns the assertion failures and access statistics since the last reset.
+func VerifSlotsReport() (errs []string, accesses, maxSlot, maxFrame, frames int) {
+	s := &encoder.VerifSlots
+	return append([]string(nil), s.Errs...), s.Accesses, s.MaxSlot, s.MaxFrame, s.Frames
 }
